@@ -291,7 +291,9 @@ class DirichletOperator(MCMCOperator):
         self._scaler = math.exp(-value)
 
     def _step(self) -> Tensor:
-        old_values = self.parameters[0].tensor
+        # a copy: the tensor of a view parameter shares the storage of its base,
+        # which the assignment below overwrites
+        old_values = self.parameters[0].tensor.clone()
         scaled_old = old_values * self._scaler
         dist_old = torch.distributions.Dirichlet(scaled_old)
         new_values = dist_old.sample()
